@@ -9,6 +9,7 @@ C03 - what is documented in each namespace is what Python defines there.  Claime
   R03.7 the walk descends into every block executed in addition to the body (loop/try else, finally)
   R03.8 sibling variable handlers: an attribute found without a kind gets one
   R03.9 every name-binding target form of an assignment is taken apart (Tuple, List, Starred, nested)
+  R03.10 x = wrapper(x) changes a kind only for the same name; no alias for a documented name
 Does not decide: the differential statement against the interpreter (members, docstrings, kinds for every program).
 """
 from __future__ import annotations
@@ -221,7 +222,22 @@ def run(repo: Repo, chk: Check, thorough: bool = False) -> None:
                'guarded by isinstance(existing, Function) and existing.overloads' if ok else
                'a redefinition re-enters the old Function object: the second definition keeps the first one\'s docstring and kind '
                '(nothing is created for it)', repo.loc(hf.mod, c))
-    chk.require('R03.6', 1)
+    # the function that may be re-entered is the one bound to that name IN THIS NAMESPACE (parent.contents), not whatever the name resolves
+    # to through enclosing scopes and imports
+    for c in rep:
+        if not (c.args and isinstance(c.args[0], ast.Name)):
+            continue
+        srcs_ = [n.value for n in hf.walk() if isinstance(n, ast.Assign) and any(isinstance(t, ast.Name) and t.id == c.args[0].id for t in n.targets)]
+        more = [n.value for v in srcs_ if isinstance(v, ast.Name) for n in hf.walk() if isinstance(n, ast.Assign) and
+                any(isinstance(t, ast.Name) and t.id == v.id for t in n.targets)]
+        lookups = [v for v in srcs_ + more if isinstance(v, ast.Call)]
+        own_ns = bool(lookups) and all(call_name(v) == 'get' and isinstance(v.func, ast.Attribute) and isinstance(v.func.value, ast.Attribute) and
+                                       v.func.value.attr == 'contents' for v in lookups)
+        chk.ob('R03.6', f'{MV}._handleFunctionDef :: the function re-entered is the one bound in this namespace', own_ns,
+               'looked up with parent.contents.get(name)' if own_ns else
+               f'`{norm(lookups[0])[:60] if lookups else "?"}` resolves the name through enclosing scopes and imports: a method `Loader.load` is merged into a module-level '
+               'overloaded `load()` - the method is not documented and the function shows the method\'s signature', repo.loc(hf.mod, c))
+    chk.require('R03.6', 2)
 
     # ------------------------------------------------------------------ R03.7
     # statement-list fields of the compound statements (oracle: the ast module of the running interpreter).  The builder's walk must
@@ -266,6 +282,20 @@ def run(repo: Repo, chk: Check, thorough: bool = False) -> None:
                'isinstance(..., list) dominates the loop' if guarded else
                f'`for ... in {norm(src)[:40]}` iterates a field that is a single expression on ast.IfExp / ast.Lambda: a conditional expression used as a '
                'statement (`print(a) if x else print(b)`) raises TypeError in the walk and the run aborts', repo.loc(gc.mod, lp))
+    # when the extra blocks are walked only for listed statement classes, the list must name every class that has such a block
+    node_p = gc.params()[1].arg
+    extra_loops = [n for n in gc.walk() if isinstance(n, ast.For) and isinstance(n.iter, (ast.Tuple, ast.List)) and
+                   any(isinstance(e, ast.Constant) and e.value in ('orelse', 'finalbody') for e in n.iter.elts)]
+    for lp in extra_loops:
+        for t, pol in cfg_gc.dominating_tests(lp):
+            if pol and isinstance(t, ast.Call) and call_name(t) == 'isinstance' and len(t.args) == 2 and norm(t.args[0]) == node_p:
+                listed = {x.attr for x in ast.walk(t.args[1]) if isinstance(x, ast.Attribute) and dotted(x.value) == 'ast'}
+                need = {nm for owners in additional.values() for nm in owners}
+                missing = sorted(need - listed)
+                chk.ob('R03.7', 'astutils.NodeVisitor.get_children :: the list of statements with extra blocks is complete', not missing,
+                       f'covers {sorted(need)}' if not missing else
+                       f'the extra blocks are only walked for {sorted(listed)}; ast.{", ast.".join(missing)} (of this interpreter) also has an else / finally block: '
+                       'what is defined there is missing', repo.loc(gc.mod, lp))
     chk.require('R03.7', 3)
 
     # ------------------------------------------------------------------ R03.8
@@ -307,4 +337,40 @@ def run(repo: Repo, chk: Check, thorough: bool = False) -> None:
                f'an assignment whose target is an ast.{tcls} (`[c, d] = ...`, `h, *rest = ...`, nested `e, (f, g) = ...`) binds names that are never documented',
                va.loc)
     chk.require('R03.9', 3)
+
+    # ------------------------------------------------------------------ R03.10
+    # `x = staticmethod(x)` changes the kind of x only when the wrapped name is the name assigned to: `create = staticmethod(make)` binds a NEW
+    # name and leaves `make` a plain function
+    osd = repo.func(f'{MV}._handleOldSchoolMethodDecoration')
+    cf_o = CFG(osd)
+    tp = osd.params()[1].arg
+    kind_sets = [n for n in osd.walk() if isinstance(n, ast.Assign) and any(isinstance(t, ast.Attribute) and t.attr == 'kind' for t in n.targets)]
+    if not kind_sets:
+        raise AnalysisError('R03.10: _handleOldSchoolMethodDecoration no longer sets a kind')
+    for ks in kind_sets:
+        same = any(pol and isinstance(x, ast.Compare) and len(x.ops) == 1 and isinstance(x.ops[0], ast.Eq) and
+                   ((norm(x.left) == tp and norm(x.comparators[0]).endswith('.id')) or (norm(x.comparators[0]) == tp and norm(x.left).endswith('.id')))
+                   for x, pol in cf_o.dominating_tests(ks))
+        chk.ob('R03.10', f'{MV}._handleOldSchoolMethodDecoration :: `{norm(ks)[:50]}` only for x = wrapper(x)', same,
+               f'dominated by `{tp} == <wrapped name>`' if same else
+               f'the kind is changed without testing that the wrapped name is the assigned name: `create = staticmethod(make)` turns `make` into a static method '
+               'and `create` is never documented', repo.loc(osd.mod, ks))
+    # an alias is only recorded for a name that is not (yet) documented in that scope: re-binding a documented variable to another name is a new value
+    # of that variable, not an alias
+    ha = repo.func('pydoctor.astbuilder._handleAliasing')
+    cf_a = CFG(ha)
+    ap = [p_.arg for p_ in ha.params()]
+    stores = [n for n in ha.walk() if isinstance(n, ast.Assign) and any(isinstance(t, ast.Subscript) and '_localNameToFullName_map' in norm(t.value) for t in n.targets)]
+    if not stores:
+        raise AnalysisError('R03.10: _handleAliasing no longer records aliases in _localNameToFullName_map')
+    for st_ in stores:
+        free = any((not pol) and isinstance(x, ast.Compare) and len(x.ops) == 1 and isinstance(x.ops[0], ast.In) and norm(x.left) == ap[1] and
+                   norm(x.comparators[0]) == f'{ap[0]}.contents' for x, pol in cf_a.dominating_tests(st_)) or \
+            any(pol and isinstance(x, ast.Compare) and len(x.ops) == 1 and isinstance(x.ops[0], ast.NotIn) and norm(x.left) == ap[1] and
+                norm(x.comparators[0]) == f'{ap[0]}.contents' for x, pol in cf_a.dominating_tests(st_))
+        chk.ob('R03.10', 'astbuilder._handleAliasing :: no alias for a name that is documented in the scope', free,
+               f'reached only when `{ap[1]} not in {ap[0]}.contents`' if free else
+               'an assignment `name = OTHER_NAME` to an already documented variable is swallowed as an alias: the variable keeps the type and value of its '
+               'earlier assignment, the attribute docstring that follows is lost', repo.loc(ha.mod, st_))
+    chk.require('R03.10', 3)
 
